@@ -163,7 +163,7 @@ func main() {
 			}
 			// the driver's state-set reduction must not change any verdict
 			if d != nil && err == nil && rej != "overflow" && res.Evaluations%3 == 0 {
-				rej0, _, _, err0 := include(d, "fixed reduce=0 eager=0", o.Trace, false)
+				rej0, _, _, err0 := include(d, "fixed reduce=0 eager=0 cap=6000", o.Trace, false)
 				switch {
 				case err0 != nil:
 					res.Note("model driver failed: " + err0.Error())
